@@ -62,13 +62,10 @@ func (p *Pegnet) IsReplayTransaction(tx *sql.Tx, entryHash *factom.Bytes32) (boo
 		return false, err
 	}
 	defer rows.Close()
-	err = rows.Err()
-	if err != nil {
-		if err == sql.ErrNoRows {
-			return false, nil
-		}
+	// If there is any result, then we know the transaction has been executed before and thus a replay.
+	found := rows.Next()
+	if err = rows.Err(); err != nil {
 		return false, err
 	}
-	// If there is any result, then we know the transaction has been executed before and thus a replay.
-	return rows.Next(), nil
+	return found, nil
 }
